@@ -901,14 +901,15 @@ func writeEvidence(prop string, cfg propCfg, tier string, seed uint64, a *agg, s
 
 // expectedProbes lists probes that a healthy batch must hit (reported in evidence when zero).
 var expectedProbes = map[string][]string{
-	"C01": {"c01-request-checked", "c01-protected-write-bound-true", "c01-protected-write-bound-false"},
-	"C03": {"write-authorised", "write-unauthorised", "write-notified-subscriber", "write-source-device-omitted", "peer-announced-known-entity-again"},
+	"C01": {"c01-request-checked", "c01-protected-write-bound-true", "c01-protected-write-bound-false", "c01-request-from-second-feature-of-same-type-and-role"},
+	"C02": {"c02-update-compared", "c02-fn-networkManagementEntityDescriptionListData", "c02-fn-measurementSeriesListData", "c02-selector-names-list-valued-element", "c02-shape-delete-elements+partial-selector"},
+	"C03": {"write-authorised", "write-unauthorised", "write-notified-subscriber", "write-source-device-omitted", "peer-announced-known-entity-again", "write-function-element-names-function-of-other-writability"},
 	"C04": {"c04-write-accepted", "c04-write-rejected", "c04-twin-checked", "c04-protected-element-present", "c04-shape-delete-selector+partial-selector"},
-	"C05": {"c05-mutated-message-handled", "c05-node-management-registry-call", "c05-messages-before-discovery", "c05-probe-read-answered"},
+	"C05": {"c05-mutated-message-handled", "c05-node-management-registry-call", "c05-messages-before-discovery", "c05-probe-read-answered", "c05-function-element-names-another-function", "gen-structured-selector-member"},
 	"C06": {"c06-add-and-remove-in-one-notification", "c06-remove-unknown-entity", "c06-repeated-announcement"},
-	"C07": {"goaf-calls-overlapped", "c07-discovery-reply-checked", "c07-read-overlapped-tree-change"},
-	"C08": {"fanout-notify-to-subscriber", "reg-server-device-omitted", "duplicate-subscribe-refused"},
-	"C09": {"bind-granted", "two-bind-requests-for-one-feature-overlapped", "reg-server-device-omitted"},
+	"C07": {"goaf-calls-overlapped", "c07-discovery-reply-checked", "c07-read-overlapped-tree-change", "c07-subscription-before-discovery-reply", "c07-other-peer-unsubscribed"},
+	"C08": {"fanout-notify-to-subscriber", "reg-server-device-omitted", "duplicate-subscribe-refused", "entity-removal-names-unknown-entity-first"},
+	"C09": {"bind-granted", "two-bind-requests-for-one-feature-overlapped", "reg-server-device-omitted", "reg-requested-type-differs"},
 	"C10": {"teardown-with-state", "approval-verdict-given", "approval-left-pending"},
 	"C11": {"c11-snapshot-verified", "c11-non-persisting-update-checked", "c11-reader-pass"},
 	"C12": {"c12-expect-applied", "c12-expect-error", "verdict-overlapped-timeout", "several-writes-on-one-feature"},
